@@ -86,7 +86,8 @@ func (a *App) CommitHandler(block hg.Block) (proxy.CommitResponse, error) {
 	if a.StepFn != nil {
 		step = a.StepFn()
 	}
-	rec := CommitRec{Body: copyBody(block.Body), StateHash: append([]byte{}, a.State...), Receipts: receipts, Step: step}
+	// the record keeps its own copy: the slice handed back to babble is babble's to use
+	rec := CommitRec{Body: copyBody(block.Body), StateHash: append([]byte{}, a.State...), Receipts: append([]hg.InternalTransactionReceipt{}, receipts...), Step: step}
 	a.Commits = append(a.Commits, rec)
 	snap, _ := json.Marshal(snapshot{State: a.State, Index: block.Index()})
 	a.Snapshots[block.Index()] = snap
